@@ -194,7 +194,11 @@ func (tr TranslationConfig) translatePackage(pkg *packages.Package) (coq.File, e
 			"could not load package %v:\n%v", pkg.PkgPath,
 			pkgErrors(pkg.Errors))
 	}
-	ctx := NewPkgCtx(pkg, tr)
+	ctx, err := newPkgCtx(pkg, tr)
+	if err != nil {
+		return coq.File{}, errors.Wrapf(err,
+			"could not translate package %v", pkg.PkgPath)
+	}
 	files := sortedFiles(pkg.CompiledGoFiles, pkg.Syntax)
 
 	coqFile := coq.File{
